@@ -28,8 +28,9 @@ def run(ctx) -> None:
                                "sequence (or an emptiness-implying condition): repr of empty vectors / zero-row tables must not raise", 3)
     ctx.rule("c.footer", "the footer's counts come from len(pv) / pv.shape and its dtypes from pv._dtype or a list computed over ALL "
                          "columns (never the displayed subset); homogeneity is decided over all columns", 3)
-    ctx.rule("d.preview", "preview = head k + ['...'] + tail k iff len > 2k else everything, same k on both sides; exactly one halving "
-                          "of the row budget on each path (global default / per-table override)", 3)
+    ctx.rule("d.preview", "preview = first H + marker + last T rows iff len > limit, else everything; as functions of the row limit n "
+                          "(explicit or global default): threshold = n, H + T = n, H, T >= 1; the per-table limit reaches the formatter "
+                          "unchanged and is the same for every displayed column", 3)
     ctx.rule("e.headers", "display names are the stored names (quoted by repr when needed), never the sanitised ones", 2)
     ctx.rule("f.pure", "repr writes no content field of the object", 3)
     ctx.rule("g.definite-assignment", "every read of a local in the display code is definitely assigned: on each CFG path from the entry "
@@ -381,6 +382,70 @@ def _element_truth(ctx) -> None:
                     problems.append(f"{bad} is taken (line {getattr(e.node, 'lineno', '?')}) before the kind of the cell is known: a Vector / "
                                     f"Table cell of an object column compares to a vector, whose truth value raises TypeError - repr "
                                     f"would fail")
+    # float-only operations on a cell of a float column: the column also holds its int elements as ints (the dtype is widened,
+    # the elements are kept), and math.isfinite / a float format spec overflow for a big int
+    def int_excluded(conds) -> bool:
+        for t, pol in flatten_conds(conds):
+            if t[0] == "call" and t[1] == ("name", "isinstance") and len(t[2]) == 2 and is_cell(t[2][0]):
+                ks = t[2][1]
+                names = {n_[1] for n_ in ([ks] if ks[0] == "name" else list(ks[1]) if ks[0] == "tuple" else []) if n_[0] == "name"}
+                if (not pol and "int" in names) or (pol and names and names <= {"float"}):
+                    return True
+        return False
+
+    def float_only_uses(t, acc):
+        if not isinstance(t, tuple) or not t or t[0] == "const":
+            return
+        if t[0] == "call" and t[1] == ("attr", ("name", "math"), "isfinite") and t[2] and is_cell(t[2][0]):
+            acc.append("math.isfinite(<cell>)")
+        if t[0] == "fmt" and is_cell(t[1]) and len(t) >= 4 and t[3] not in (None, ("const", "NoneType", None)):
+            spec = t[3]
+            txt = "".join(p_[2] for p_ in (spec[1] if spec[0] == "fstr" else (spec,)) if p_[0] == "const" and isinstance(p_[2], str))
+            if txt and txt[-1] in "feEgG%":
+                acc.append(f"format(<cell>, '{txt}')")
+        for x in t:
+            if isinstance(x, tuple):
+                float_only_uses(x, acc)
+    def walk(t, conds, found):
+        """float-only uses of a cell inside t that are not under a condition excluding ints (conditional terms extend the conditions)"""
+        if not isinstance(t, tuple) or not t or t[0] == "const":
+            return
+        if t[0] == "ifexp":
+            walk(t[1], conds, found)
+            walk(t[2], conds + ((t[1], True),), found)
+            walk(t[3], conds + ((t[1], False),), found)
+            return
+        if t[0] == "bool" and t[1] == "and":
+            acc = conds
+            for x in t[2]:
+                walk(x, acc, found)
+                acc = acc + ((x, True),)
+            return
+        own = []
+        shallow = t[:2] + tuple(x if not isinstance(x, tuple) else x for x in t[2:])
+        if t[0] == "call" and t[1] == ("attr", ("name", "math"), "isfinite") and t[2] and is_cell(t[2][0]):
+            own.append("math.isfinite(<cell>)")
+        if t[0] == "fmt" and is_cell(t[1]):
+            tmp = []
+            float_only_uses(("tuple", (t,)), tmp)
+            own += tmp
+        if own and not int_excluded(conds):
+            found += own
+        for x in t:
+            if isinstance(x, tuple):
+                walk(x, conds, found)
+    for e in it.events:
+        under_float = any(pol and t[0] == "cmp" and t[1] in ("Is", "Eq") and t[3] == ("name", "float") and t[2][0] == "attr" and t[2][2] == "kind"
+                          for t, pol in flatten_conds(e.conds))
+        if not under_float:
+            continue
+        found = []
+        for top in (e.term, e.value):
+            if top is not None:
+                walk(top, tuple(e.conds), found)
+        if found:
+            problems.append(f"{found[0]} is applied (line {getattr(e.node, 'lineno', '?')}) to a cell of a float column that may be an int: a "
+                            f"float column keeps its int elements as ints, and a big one makes repr raise OverflowError")
     seenp = set()
     problems = [p_ for p_ in problems if not (p_ in seenp or seenp.add(p_))]
     ctx.ob("a.element-truth", f, "cells", not problems, f"{n} truth-valued use(s) of cell values, each under an established scalar kind",
@@ -434,10 +499,53 @@ def _contains_finite(e: ast.AST, v: str) -> bool:
 
 
 # --------------------------------------------------------------------------------------------- b
+def _lower_bound(prog, f: FuncInfo, e: ast.AST, at_node, depth=0) -> Optional[int]:
+    """an integer L with e >= L on every path (interval arithmetic over max / + / - const / // positive const), None if unknown"""
+    if depth > 6:
+        return None
+    if isinstance(e, ast.Constant) and isinstance(e.value, int) and not isinstance(e.value, bool):
+        return e.value
+    if isinstance(e, ast.Call) and short(e.func) == "max" and len(e.args) >= 2:
+        bs = [_lower_bound(prog, f, a, at_node, depth + 1) for a in e.args]
+        bs = [b for b in bs if b is not None]
+        return max(bs) if bs else None
+    if isinstance(e, ast.Call) and short(e.func) == "min" and len(e.args) >= 2:
+        bs = [_lower_bound(prog, f, a, at_node, depth + 1) for a in e.args]
+        return min(bs) if all(b is not None for b in bs) else None
+    if isinstance(e, ast.BinOp) and isinstance(e.op, ast.FloorDiv) and isinstance(e.right, ast.Constant) \
+            and isinstance(e.right.value, int) and e.right.value >= 1:
+        b = _lower_bound(prog, f, e.left, at_node, depth + 1)
+        return None if b is None else b // e.right.value
+    if isinstance(e, ast.BinOp) and isinstance(e.op, (ast.Add, ast.Sub)):
+        a, b = e.left, e.right
+        if isinstance(b, ast.Constant) and isinstance(b.value, int):
+            x = _lower_bound(prog, f, a, at_node, depth + 1)
+            return None if x is None else (x + b.value if isinstance(e.op, ast.Add) else x - b.value)
+        if isinstance(a, ast.Constant) and isinstance(a.value, int) and isinstance(e.op, ast.Add):
+            x = _lower_bound(prog, f, b, at_node, depth + 1)
+            return None if x is None else x + a.value
+    if isinstance(e, ast.Name):
+        cfg = cfg_of(f)
+        if e.id in Defs(f).assigns:
+            defs = reaching_def_nodes(cfg, e.id, at_node)
+            if not defs:
+                return None
+            bs = []
+            for d, dn in defs:
+                if d is PARAM or not isinstance(d, ast.expr):
+                    return None
+                bs.append(_lower_bound(prog, f, d, dn, depth + 1))
+            return min(bs) if all(b is not None for b in bs) else None
+    return None
+
+
 def _positive(prog, f: FuncInfo, e: ast.AST, at_node, depth=0) -> Optional[str]:
     """None if `e` (evaluated at CFG node at_node) is provably >= 1, else a reason."""
     if depth > 6:
         return "definition chain too deep"
+    lb = _lower_bound(prog, f, e, at_node)
+    if lb is not None and lb >= 1:
+        return None
     if isinstance(e, ast.Constant) and isinstance(e.value, int) and not isinstance(e.value, bool):
         return None if e.value >= 1 else f"the constant {e.value} is not positive"
     if isinstance(e, ast.Call) and short(e.func) == "max" and len(e.args) >= 2:
@@ -628,6 +736,12 @@ def _footer(ctx) -> None:
             tab = (e, ps)
     if not any(shape in list(subterms(c)) for e in rets for c, _ in e.conds):
         problems.append("the footer kind is not decided by the object's shape")
+    # every footer states a count and a dtype: a constant text (e.g. "# empty") states neither
+    for e in rets:
+        fm = [p_ for p_ in parts_of(e.term) if p_[0] == "fmt"]
+        if len(fm) < 2:
+            problems.append(f"the footer `{show(e.term, it)[:40]}` (line {getattr(e.node, 'lineno', '?')}) states no element count / dtype "
+                            f"(an empty vector still has 0 elements of a dtype)")
     if vec is None:
         problems.append("the vector footer `# N element vector <dtype>` is not produced")
     else:
@@ -752,19 +866,49 @@ def _term_halvings(t) -> Optional[int]:
             return n
 
 
+def _ieval(t, env):
+    """integer value of a closed arithmetic term (const, + - * //, max, min, unary minus, conditional on `x is None`) under env:
+    term -> int|None for the free terms; None if the term is outside this fragment"""
+    if t in env:
+        return env[t]
+    k = t[0]
+    if k == "const" and isinstance(t[2], int) and not isinstance(t[2], bool):
+        return t[2]
+    if k == "bin" and t[1] in ("Add", "Sub", "Mult", "FloorDiv"):
+        a, b = _ieval(t[2], env), _ieval(t[3], env)
+        if a is None or b is None or (t[1] == "FloorDiv" and b == 0):
+            return None
+        return {"Add": a + b, "Sub": a - b, "Mult": a * b, "FloorDiv": a // b if t[1] == "FloorDiv" else 0}[t[1]]
+    if k == "un" and t[1] == "USub":
+        a = _ieval(t[2], env)
+        return None if a is None else -a
+    if k == "call" and t[1] in (("name", "max"), ("name", "min")) and t[2] and not t[3]:
+        vs = [_ieval(a, env) for a in t[2]]
+        if any(v is None for v in vs):
+            return None
+        return max(vs) if t[1][1] == "max" else min(vs)
+    if k == "ifexp" and t[1][0] == "cmp" and t[1][1] == "Is" and t[1][3] == ("const", "NoneType", None):
+        subj = t[1][2]
+        if subj in env:
+            return _ieval(t[2] if env[subj] is None else t[3], env)
+    return None
+
+
 def _preview(ctx) -> None:
-    """Decided on symx terms: the preview is head K + ['...'] + tail K iff len > 2K else everything (same K); K is the row budget
-    halved exactly once on every path (global default inside _format_column / per-table override in the caller)."""
-    from ..sites2 import interp_of, leaves_with_conds
+    """The statement: data longer than the preview limit shows exactly its first and last rows around an ellipsis, shorter data shows
+    every row.  On symx terms: the preview is  head H + [marker] + tail T  iff  len(values) > M, else all values, where - as
+    functions of the row limit n (the per-table override or the global default), decided by evaluating the closed arithmetic terms
+    for every n of a full period - M(n) = n and H(n) + T(n) = n with H, T >= 1 (limits below 2 may be clamped)."""
+    from ..sites2 import interp_of
     from ..symx import NONE as SNONE
     from ..symx import const, kw, show, subterms
     prog = ctx.prog
     f = prog.func("display._format_column")
     it = interp_of(prog, f)
     P = ("param", f.params[1])
+    DEF = ("name", "_REPR_ROWS_DEFAULT")
     vals = ("attr", ("param", f.params[0]), "_underlying")
     problems = []
-    # the preview: a conditional term whose test is len(vals) > K * 2
     previews = []
     for lp in it.loops.values():
         if lp.iter is not None and lp.iter[0] == "ifexp":
@@ -773,17 +917,20 @@ def _preview(ctx) -> None:
         for t in subterms(e.term):
             if t[0] == "ifexp" and t not in previews:
                 previews.append(t)
-    pv = None
-    K = None
     ln = ("call", ("name", "len"), (vals,), ())
+    pv = M = None
     for t in previews:
         c = t[1]
-        if c[0] == "cmp" and c[1] == "Gt" and c[2] == ln and c[3][0] == "bin" and c[3][1] == "Mult" and const(2) in (c[3][2], c[3][3]):
-            pv = t
-            K = c[3][3] if c[3][2] == const(2) else c[3][2]
+        if c[0] == "cmp" and c[1] in ("Gt", "GtE", "Lt", "LtE") and ln in (c[2], c[3]):
+            other = c[3] if c[2] == ln else c[2]
+            # normalise to  len > M
+            if (c[1] == "Gt" and c[2] == ln) or (c[1] == "Lt" and c[3] == ln):
+                pv, M = t, other
+            elif (c[1] == "GtE" and c[2] == ln) or (c[1] == "LtE" and c[3] == ln):
+                pv, M = t, ("bin", "Sub", other, const(1))
             break
     if pv is None:
-        problems.append("the preview is not truncated exactly when len(values) > 2 * k (k = the preview size)")
+        problems.append("the preview is not selected by comparing len(values) with the row limit")
     else:
         def seq_of(x):
             if x[0] == "obj" and it.objs[x[1]].kind == "list" and isinstance(it.objs[x[1]].node, ast.Call) and len(it.objs[x[1]].init) == 1:
@@ -792,83 +939,91 @@ def _preview(ctx) -> None:
                 return x[2][0]
             return x
         full, short_ = pv[2], pv[3]
-        head = ("sub", vals, ("slice", SNONE, K, SNONE))
-        tail = ("sub", vals, ("slice", ("un", "USub", K), SNONE, SNONE))
+        H = T = None
         okh = full[0] == "bin" and full[1] == "Add" and full[2][0] == "bin" and full[2][1] == "Add" \
-            and seq_of(full[2][2]) == head and seq_of(full[3]) == tail \
             and full[2][3][0] == "obj" and len(it.objs[full[2][3][1]].init) == 1
         if okh:
-            # the one element between head and tail is the marker that is rendered as '...': the text itself, or an object
-            # that the cell formatting recognises (by identity or equality) and renders as '...'
-            M = it.objs[full[2][3][1]].init[0]
+            h_, t_ = seq_of(full[2][2]), seq_of(full[3])
+            if h_[0] == "sub" and h_[1] == vals and h_[2][0] == "slice" and h_[2][1] == SNONE and h_[2][3] == SNONE:
+                H = h_[2][2]
+            if t_[0] == "sub" and t_[1] == vals and t_[2][0] == "slice" and t_[2][2] == SNONE and t_[2][3] == SNONE \
+                    and t_[2][1][0] == "un" and t_[2][1][1] == "USub":
+                T = t_[2][1][2]
+            # the one element between head and tail is the marker that is rendered as '...'
+            Mk = it.objs[full[2][3][1]].init[0]
             rendered = False
             for e in it.events:
                 v = e.value if e.kind == "elem" else (e.term[2][0] if e.kind == "call" and e.term[1][0] == "attr"
                                                       and e.term[1][2] == "append" and len(e.term[2]) == 1 else None)
-                if v != const("...") or not e.conds:
-                    continue
-                t, pol = e.conds[-1]
-                if pol and t[0] == "cmp" and t[1] in ("Is", "Eq") and M in (t[2], t[3]):
-                    rendered = True
-            for e in it.events:
+                if v == const("...") and e.conds:
+                    t, pol = e.conds[-1]
+                    if pol and t[0] == "cmp" and t[1] in ("Is", "Eq") and Mk in (t[2], t[3]):
+                        rendered = True
                 for top in (e.value, e.term):
                     if top is None:
                         continue
                     for x in subterms(top):
-                        if x[0] == "ifexp" and x[2] == const("...") and x[1][0] == "cmp" and x[1][1] in ("Is", "Eq") and M in (x[1][2], x[1][3]):
+                        if x[0] == "ifexp" and x[2] == const("...") and x[1][0] == "cmp" and x[1][1] in ("Is", "Eq") and Mk in (x[1][2], x[1][3]):
                             rendered = True
             if not rendered:
-                okh = False
-        if not okh:
-            problems.append(f"the truncated preview is `{show(full, it)[:90]}`, expected head k + ['...'] + tail k (same size on both sides)")
+                problems.append("the element between head and tail is not rendered as '...'")
+        if not okh or H is None or T is None:
+            problems.append(f"the truncated preview is `{show(full, it)[:90]}`, expected values[:H] + [marker] + values[-T:]")
         if seq_of(short_) != vals:
             problems.append(f"short data is previewed as `{show(short_, it)[:50]}`, expected every row")
-    ctx.ob("d.preview", f, "symmetric", not problems, "head k + '...' + tail k iff len > 2k, else everything", f.node, message="; ".join(problems))
-    # halving count per path
-    problems = []
-    inside = default_h = None
-
-    def budget_paths(t, n=0):
-        """(source term, number of // 2 applied to it) for every way the budget term can be computed"""
-        while True:
-            if t[0] == "call" and t[1] == ("name", "max") and len(t[2]) == 2 and len([a for a in t[2] if a[0] != "const"]) == 1:
-                t = [a for a in t[2] if a[0] != "const"][0]
-            elif t[0] == "bin" and t[1] == "FloorDiv" and t[3] == ("const", "int", 2):
-                n += 1
-                t = t[2]
-            elif t[0] == "ifexp":
-                return budget_paths(t[2], n) + budget_paths(t[3], n)
-            else:
-                return [(t, n)]
-    if K is not None:
-        for leaf, h in budget_paths(K):
-            if any(x[0] == "name" and x[1] == "_REPR_ROWS_DEFAULT" for x in subterms(leaf)):
-                default_h = h
-            elif any(x == P for x in subterms(leaf)):
-                inside = h
-    if default_h is None:
-        problems.append("the global row budget is not used as the default")
-    elif default_h != 1:
-        problems.append(f"the global row budget is halved {default_h} time(s) on the way to the preview size (must be exactly once)")
-    if inside is None:
-        inside = 0
+        if H is not None and T is not None:
+            # as functions of the row limit n: both sources (explicit limit / global default)
+            for label, mk_env in (("an explicit limit", lambda n: {P: n, DEF: 10 ** 6}), ("the global default", lambda n: {P: None, DEF: n})):
+                bad = None
+                for n in range(2, 14):
+                    env = mk_env(n)
+                    m, h, t = _ieval(M, env), _ieval(H, env), _ieval(T, env)
+                    if m is None or h is None or t is None:
+                        bad = "the sizes are not closed arithmetic over the row limit"
+                        break
+                    if m != n:
+                        bad = (f"with a limit of {n} rows data is truncated as soon as it is longer than {m} rows: data that is not longer "
+                               f"than the limit loses rows behind the ellipsis" if m < n else
+                               f"with a limit of {n} rows data of up to {m} rows is shown in full")
+                        break
+                    if h + t != n or h < 1 or t < 1:
+                        bad = f"with a limit of {n} rows the truncated preview shows {h} first and {t} last rows (must be >= 1 each, {n} in all)"
+                        break
+                if bad:
+                    problems.append(f"for {label}: {bad}")
+    ctx.ob("d.preview", f, "symmetric", not problems, "values[:H] + '...' + values[-T:] iff len > limit (H + T = limit), else everything",
+           f.node, message="; ".join(problems[:2]))
+    # the caller hands the per-table limit over unchanged, the same one for every displayed column
     g = prog.func("display._repr_table")
     gi = interp_of(prog, g)
+    TBL = ("param", g.params[0])
     passed = [e for e in gi.events if e.kind == "call" and e.term[1] == ("name", "_format_column")]
+    problems = []
     for e in passed:
         a = kw(e.term, f.params[1]) if kw(e.term, f.params[1]) is not None else (e.term[2][1] if len(e.term[2]) > 1 else None)
         if a is None:
             continue
-        for leaf, h in budget_paths(a):
-            if leaf == SNONE:
-                continue
-            if h + inside != 1:
-                problems.append(f"a per-table row budget `{show(leaf, gi)[:50]}` is halved {h + inside} time(s) in total (caller {h} + "
-                                f"_format_column {inside}); must be exactly once: tables with a _repr_rows override (peek) would show too few rows")
-    seen = set()
-    problems = [p_ for p_ in problems if not (p_ in seen or seen.add(p_))]
-    ctx.ob("d.preview", f, "one-halving", not problems, "row budget // 2 exactly once on every path", f.node, message="; ".join(problems))
-    # table body rows: every displayed column is formatted with the same preview size
+        ok_a = False
+        for n in (3, 5, 12):
+            v = _ieval(a, {("attr", TBL, "_repr_rows"): n})
+            ok_a = v == n
+            if not ok_a:
+                break
+        leaves_ = []
+
+        def leaves_of(t):
+            if t[0] == "ifexp":
+                leaves_of(t[2])
+                leaves_of(t[3])
+            else:
+                leaves_.append(t)
+        leaves_of(a)
+        bad_leaves = [x for x in leaves_ if x != SNONE and x != ("attr", TBL, "_repr_rows")]
+        if bad_leaves:
+            problems.append(f"the per-table row limit is handed over as `{show(bad_leaves[0], gi)[:50]}`, not as tbl._repr_rows itself: tables "
+                            f"with a _repr_rows override (peek) would show a different number of rows")
+    ctx.ob("d.preview", f, "one-halving", not problems, "the per-table row limit reaches _format_column unchanged", f.node,
+           message="; ".join(problems[:2]))
     ok = bool(passed)
     for e in passed:
         a = kw(e.term, f.params[1]) if kw(e.term, f.params[1]) is not None else (e.term[2][1] if len(e.term[2]) > 1 else None)
@@ -883,7 +1038,7 @@ def _headers(ctx) -> None:
     """Display names are the stored names and are printed verbatim (repr-quoted when needed) - on the symx event logs of
     _compute_headers and _header_rows (closures and helpers in line, comprehension or append loop alike)."""
     from ..sites2 import interp_of, strip_seq
-    from ..symx import beval, const, elements, reduce_ifexp, show, show_conds, simplify
+    from ..symx import beval, const, elements, reduce_ifexp, show, show_conds, simplify, subterms
     prog = ctx.prog
     f = prog.func("display._compute_headers")
     it = interp_of(prog, f)
@@ -931,11 +1086,24 @@ def _headers(ctx) -> None:
     for obj, els in rows:
         L = [L for L in els[0].loops if gi.loops[L].iter == DN][0]
         name = ("elem", DN, L)
-        ell = ("cmp", "Eq", name, const("..."))
         nq = ("call", ("name", "_needs_quote"), (name,), ())
         base = len(gi.loops[L].conds)
-        for sit, atoms, want in (("needs quoting", {ell: False, nq: True, name: True}, ("call", ("name", "repr"), (name,), ())),
-                                 ("plain", {ell: False, nq: False, name: True}, name)):
+        # the marker of the elided middle columns may only be recognised by IDENTITY with a marker object: a comparison of the
+        # name with a text by value also catches a column really named like that (it would lose its header)
+        marker_atoms = {}
+        for e in els:
+            terms = [c for c, _ in e.conds[base:]] + ([e.value] if e.value is not None else []) + [e.term]
+            for top in terms:
+                for x in subterms(top):
+                    if x[0] == "cmp" and name in (x[2], x[3]):
+                        o = x[3] if x[2] == name else x[2]
+                        if x[1] in ("Is", "IsNot") and o[0] == "name":
+                            marker_atoms[("cmp", "Is", x[2], x[3])] = False
+                        elif x[1] in ("Eq", "NotEq") and o[0] == "const" and isinstance(o[2], str):
+                            problems.append(f"a display name is compared by value with the text {o[2]!r} (`{show(x, gi)[:40]}`): a column "
+                                            f"really named {o[2]!r} is taken for the marker and loses its header")
+        for sit, atoms, want in (("needs quoting", {**marker_atoms, nq: True, name: True}, ("call", ("name", "repr"), (name,), ())),
+                                 ("plain", {**marker_atoms, nq: False, name: True}, name)):
             got = []
             for e in els:
                 inside = e.conds[base:]
@@ -962,7 +1130,13 @@ def _headers(ctx) -> None:
                 if se is not None and len(se[0]) == 1 and gi.loops[se[0][0]].iter == DN:
                     nm = ("elem", DN, se[0][0])
                     filt = flatten_conds(se[1])
-                    if se[2] == nm and filt in ([], [(("cmp", "Eq", nm, const("...")), False)]):
+                    marker_only = len(filt) == 1 and not filt[0][1] and filt[0][0][0] == "cmp" and filt[0][0][1] == "Is" \
+                        and nm in (filt[0][0][2], filt[0][0][3]) and (filt[0][0][3] if filt[0][0][2] == nm else filt[0][0][2])[0] == "name"
+                    if se[2] == nm and (filt == [] or marker_only):
+                        ok = True
+                    elif se[2] == nm and len(filt) == 1 and filt[0][0][0] == "cmp" and filt[0][0][1] == "Eq":
+                        problems.append(f"the display names are filtered by value (`{show(filt[0][0], gi)[:40]}`): a column really named like "
+                                        f"the marker does not count as named")
                         ok = True
             if not fc:
                 ok = True
@@ -993,6 +1167,10 @@ MUTANTS = [
     dict(id="footer-uses-displayed-dtypes", module=_D, old="		unique_dtypes = set(dtypes_all)", new="		unique_dtypes = set(dtypes_displayed)",
          rules=["c.footer"]),
     dict(id="footer-single-from-displayed", module=_D, old="f\"<{dtypes_all[0]}>\"", new="f\"<{dtypes_displayed[0]}>\"", rules=["c.footer"]),
+    dict(id="empty-vector-footer-says-empty", module=_D,
+         old="	# An empty vector reports the shape (): it is still a vector of 0 elements with a dtype\n	if len(shape) <= 1:",
+         new="	if not shape:\n		return \"# empty\"\n	if len(shape) == 1:", rules=["c.footer"],
+         desc="the defect repaired by the empty-vector repr fix: no element count, no dtype for an empty vector"),
     dict(id="head-tail-asymmetric", module=_D, old="		preview = list(vals[:max_preview]) + [_ELLIPSIS] + list(vals[-max_preview:])",
          new="		preview = list(vals[:max_preview]) + [_ELLIPSIS] + list(vals[-(max_preview + 1):])", rules=["d.preview", "b.tail-slice"]),
     dict(id="ellipsis-marker-compared-by-value", module=_D,
